@@ -348,6 +348,12 @@ def object_events(cname: str, kind: str, seed, small_m: bool, ncalls: int) -> tu
         if r < 0.07:
             calls.append(("rebound",))
             evs.append(rebound_event(fc, conc, rng))
+        elif kind == "default" and conc.default and r < 0.16 and i > 0:
+            # the same forecaster object is pointed at ANOTHER well (production and time scale decades away): a fit depends on the
+            # data it is given, not on what the object fitted before
+            conc = _random_conc(rng, cname, "default", small_m)
+            calls.append(("fit on another well", None))
+            evs.append(fit_event(fc, conc, None, rng))
         elif r < 0.35:
             calls.append(("fit", None))
             evs.append(fit_event(fc, conc, None, rng))
